@@ -671,6 +671,25 @@ pub fn analyze(sc: &Scenario, out: &RunOut) -> Analysis {
                 let l = port_map[*node][*port];
                 lists[l].push(Conn::To { node: *target, mode: Mode::Plain });
             }
+            Ev::MapEval { id } => {
+                // User code (a connection closure of an event source) evaluated for a scheduled
+                // action: it belongs to the time step of that occurrence, hence after its
+                // synchronisation and never in a step that reported a lag above the tolerance.
+                if let Some(&ri) = req_by_id.get(id) {
+                    let is_step = matches!(cmd_of(cur_cmd), Some(Cmd::Step) | Some(Cmd::StepUntil(_)));
+                    if is_step {
+                        if !dues.iter().any(|d| d.req == ri) {
+                            viol!("code_before_sync", "a connection closure ran for scheduled action id={} outside the synchronised time step of one of its occurrences (current time {})", id, now);
+                        }
+                        if step_had_oos {
+                            viol!("oos_code_ran", "a connection closure ran for scheduled action id={} in a step whose synchronisation reported a lag above the tolerance", id);
+                        }
+                        if terminated.is_some() {
+                            viol!("term_activity", "a connection closure ran for scheduled action id={} after termination", id);
+                        }
+                    }
+                }
+            }
             Ev::ConnectVia { node, port, conn } => {
                 let l = port_map[*node][*port];
                 lists[l].push(*conn);
